@@ -1138,4 +1138,77 @@ Proof.
     apply Inv_mark_cached. exact HI.
 Qed.
 
+
+Lemma run_inv evs : forall (s : st) os,
+  Inv s os -> PointSpec.sched_ok P presume plan_of D dev s evs = true ->
+  reads_ok rdm (last_msg None os) (snd (run s evs)) = true ->
+  Inv (fst (run s evs)) (os ++ snd (run s evs)).
+Proof.
+  induction evs as [|e evs IH]; intros s os HI Hs Hr; cbn [RE.run fst snd] in *.
+  - rewrite app_nil_r. exact HI.
+  - cbn [PointSpec.sched_ok] in Hs. apply andb_true_iff in Hs. destruct Hs as [Hs1 Hs2].
+    pose proof (step_inv s os e HI Hs1) as Hstep. specialize (IH (fst (step s e)) (os ++ snd (step s e))).
+    destruct (step s e) as [s1 o1]. cbn [fst snd] in *.
+    destruct (run s1 evs) as [s2 o2]. cbn [fst snd] in *.
+    rewrite reads_ok_app in Hr. apply andb_true_iff in Hr. destruct Hr as [Hr1 Hr2].
+    rewrite app_assoc. apply IH; [apply Hstep; exact Hr1 | exact Hs2 | rewrite last_msg_app; exact Hr2].
+Qed.
+
+(* __call__(plan) on a fresh engine *)
+Lemma init_inv d paus stag :
+  Inv (fst (step (RE.init P D d paus stag false) (EvMain (ACall pid)))) (snd (step (RE.init P D d paus stag false) (EvMain (ACall pid)))).
+Proof.
+  cbn [RE.step RE.init RE.state]. ev_st. cbn [fst snd].
+  destruct (bodypre_split L) as [r Hr]. pose proof HL as HL'. rewrite Hr in HL'.
+  apply arun_app in HL'. destruct HL' as (aend0 & d1 & d2 & E1 & _ & _).
+  eapply I_ns with (q := mkpos [] [] [] [] L (plan_of pid) false a_init a_init aend0 [] []); simp_st; try reflexivity.
+  - split; [|split].
+    + unfold PosOK, mkpos, pend; cbn. repeat split; try reflexivity; try assumption. exists d1. exact E1.
+    + unfold Link, mkpos; cbn [p_c p_infl p_fl p_p p_started p_acur p_a0 p_aend map app]. unfold RE.clear_call. simp_st.
+      repeat split; reflexivity.
+    + unfold Docs. cbn. repeat split; intros x [].
+  - left. reflexivity.
+  - exists [VNone]. split; reflexivity.
+Qed.
+
+(* ------------------------------------------------------------------ what a finished call has recorded *)
+Definition call_run d paus stag evs := run (RE.init P D d paus stag false) (EvMain (ACall pid) :: evs).
+Definition call_sched_ok d paus stag evs : bool :=
+  PointSpec.sched_ok P presume plan_of D dev (fst (step (RE.init P D d paus stag false) (EvMain (ACall pid)))) evs.
+
+Lemma call_inv d paus stag evs :
+  call_sched_ok d paus stag evs = true -> reads_ok rdm None (snd (call_run d paus stag evs)) = true ->
+  Inv (fst (call_run d paus stag evs)) (snd (call_run d paus stag evs)).
+Proof.
+  unfold call_sched_ok, call_run. intros Hs Hr. cbn [RE.run].
+  pose proof (init_inv d paus stag) as H0.
+  assert (E0 : snd (step (RE.init P D d paus stag false) (EvMain (ACall pid))) = []).
+  { cbn [RE.step RE.init RE.state]. ev_st. reflexivity. }
+  destruct (step (RE.init P D d paus stag false) (EvMain (ACall pid))) as [s1 o1] eqn:E. cbn [fst snd] in *. subst o1.
+  cbn [RE.run] in Hr. rewrite E in Hr.
+  pose proof (run_inv evs s1 [] H0 Hs) as H1.
+  destruct (run s1 evs) as [s2 o2]. cbn [fst snd app] in *. apply H1. exact Hr.
+Qed.
+
+(* at every moment: only events of the reference run, and nothing has failed *)
+Theorem call_safe d paus stag evs :
+  call_sched_ok d paus stag evs = true -> reads_ok rdm None (snd (call_run d paus stag evs)) = true ->
+  incl (final_events (snd (call_run d paus stag evs))) (doc_events SD) /\ no_raise (snd (call_run d paus stag evs)) = true.
+Proof.
+  intros Hs Hr. pose proof (call_inv d paus stag evs Hs Hr) as HI.
+  inv_cases HI; try (destruct HD as (D1 & _ & _ & D4); split; assumption);
+    try (destruct F5 as (D1 & _ & _ & D4); split; assumption).
+  destruct HDA as (D1 & _ & _ & D4). split; assumption.
+Qed.
+
+(* when the call is over: exactly the events and the RunStops of the reference run *)
+Theorem call_complete d paus stag evs :
+  call_sched_ok d paus stag evs = true -> reads_ok rdm None (snd (call_run d paus stag evs)) = true ->
+  finished P D (fst (call_run d paus stag evs)) = true ->
+  DocsAll (snd (call_run d paus stag evs)).
+Proof.
+  intros Hs Hr Hf. pose proof (call_inv d paus stag evs Hs Hr) as HI. unfold finished in Hf.
+  inv_cases HI; try (destruct Hpc as [Hpc|Hpc]); try (rewrite Hpc in Hf; discriminate Hf). exact HDA.
+Qed.
+
 End D.
